@@ -548,6 +548,25 @@ def converter_invalid(m: onnx.ModelProto) -> Optional[str]:
     return None
 
 
+def converter_asserts(m: onnx.ModelProto) -> Optional[str]:
+    """Known third-party defect: the Softmax / LogSoftmax 12 -> 13 adapter of onnx.version_converter replaces the
+    uses of the operator's result; when a use sits in a body capturing it, an internal assertion fails
+    (RuntimeError ... ir.h ... owningGraph). Blamed only if the converter ALONE raises it on m."""
+    try:
+        opset = next((o.version for o in m.opset_import if o.domain in ("", "ai.onnx")), 17)
+        for t in (14, 18, 21):
+            if t <= opset:
+                continue
+            try:
+                onnx.version_converter.convert_version(m, t)
+            except RuntimeError as e:
+                if "owningGraph" in str(e):
+                    return "version-converter:RuntimeError:captured-result"
+    except Exception:  # noqa: BLE001
+        return None
+    return None
+
+
 ML_LABEL_ENCODER_VERSION = {3: 2, 4: 4, 5: 4}  # spox ml module -> the version its label_encoder asks for
 
 
@@ -587,6 +606,10 @@ def classify_build_error(m: onnx.ModelProto, e: BaseException, ml_v: Optional[in
         return "second-domain-version-clash:ValidationError"
     if cls == "ValidationError" and "single static assignment" in str(e):
         k = converter_invalid(m)
+        if k:
+            return k
+    if cls == "RuntimeError" and "owningGraph" in str(e):
+        k = converter_asserts(m)
         if k:
             return k
     if cls == "ConvertError":  # onnx.version_converter (adapt_inline), third-party
